@@ -68,7 +68,16 @@ class Prober:
         for i, a in enumerate(refs):
             for b in refs[i + 1:]:
                 atoms.append(a.t == b.t)
-        return atoms[:60]
+        # membership-like relations between integer sequences (what `x in xs` conditions depend on)
+        ints = [s for s in seqs if w.sort_of(s.kind[1]) == z3.IntSort()]
+        rel = []
+        for i, a in enumerate(ints):
+            for b in ints[i + 1:]:
+                for x in range(2):
+                    for y in range(2):
+                        rel.append(z3.And(SLen(a.t) > x, SLen(b.t) > y, SAt(a.t, z3.IntVal(x)) == SAt(b.t, z3.IntVal(y))))
+            rel.append(z3.And(SLen(a.t) > 1, SAt(a.t, z3.IntVal(0)) == SAt(a.t, z3.IntVal(1))))
+        return rel[:30] + atoms[:60]
 
     def shape_constraints(self, small=True):
         """well-typedness of the entry heap around the parameters (depth 2) + smallness bounds, used only to steer the
